@@ -718,6 +718,53 @@ def _cmp_set(e, var_pred):
     return None
 
 
+def _final_unlatch_by_fold(f, fn):
+    """the statements of `fn` after its (one) loop, executed with the reader positioned on each short remainder: the set of
+    remainder lengths L (remainder = L codewords, the first being 254) for which exactly that one codeword is consumed, provided
+    nothing is consumed when the first codeword is not 254.  None if that code does not fold."""
+    b = f.thir.get(fn)
+    raw = b["body"].get("stmts", [])
+    k_loop = None
+    for k, st in enumerate(raw):
+        node = st.get("init") if st["k"] == "Let" else st.get("expr")
+        if node is not None and any(n.get("k") == "Loop" for n in T.walk(node)):
+            k_loop = k
+    if k_loop is None:
+        return None
+    suffix = raw[k_loop + 1:]
+    pname = b["params"][0]["pat"]["name"] if b["params"] and b["params"][0].get("pat", {}).get("k") == "Bind" else None
+    if pname is None:
+        return None
+    # variables declared before the loop are opaque after it, except the reader
+    pre_names = [n for st in raw[:k_loop] if st["k"] == "Let" for n in T.pat_names(st["pat"])]
+
+    def run(stream):
+        rd = {"__adt__": "decodation::Reader", "__variant__": "Reader", "0": list(stream), "#0": list(stream), "1": 7, "#1": 7}
+        env = {n: T.Token(n.split("#")[0]) for n in pre_names}
+        for p_ in b["params"][1:]:
+            if p_.get("pat", {}).get("k") == "Bind":
+                env[p_["pat"]["name"]] = T.Token("out")
+        env[pname] = rd
+        fo = T.Folder(f, env=env, effects=True, local_calls=3)
+        fo.exec_stmts(suffix)
+        return len(stream) - len(fo.env[pname]["0"])
+    try:
+        ok_len = set()
+        for L in range(0, 5):
+            eaten = run([254] + [65] * (L - 1)) if L else run([])
+            other = run([65] * L) if L else 0
+            other2 = run([65] * (L - 1) + [254]) if L >= 2 else 0
+            if other or other2:
+                return frozenset({-1})         # consumes although the remainder does not start with a lone 254
+            if eaten == 1:
+                ok_len.add(L)
+            elif eaten:
+                return frozenset({-2})
+        return frozenset(ok_len)
+    except (T.Undecidable, T.Trap, KeyError, TypeError):
+        return None
+
+
 def dec_thresh(ctx):
     r = "DEC-THRESH"
     f = ctx.facts()
@@ -754,6 +801,17 @@ def dec_thresh(ctx):
             cont = _cmp_set(loops[0][1][0][1], is_len)
         obs.append(Ob(r, "%s:continue" % fn.split("::")[-1], cont == frozenset(range(2, 9)),
                       "%s: pairs are decoded while more than one codeword remains (a single trailing codeword is ASCII)" % fn.split("::")[-1], detail=sorted(cont) if cont is not None else None))
+        tail = _final_unlatch_by_fold(f, fn)
+        if tail is not None:
+            obs.append(Ob(r, "%s:final-unlatch" % fn.split("::")[-1], tail == frozenset({1}),
+                          "%s: a final single codeword 254 is consumed as unlatch iff exactly one codeword remains (code after the pair loop folded against the reader for every short remainder)" % fn.split("::")[-1], detail=sorted(tail)))
+            brk = False
+            if loops:
+                for st in T.stmt_walk(loops[0][1]):
+                    if st[0] == "if" and st[1][0] == "bin" and st[1][1] == "Eq" and any(x[0] == "const" and x[1] == "encodation::UNLATCH" for x in T.sx_walk(st[1])) and any(x[0] == "break" for x in st[2]):
+                        brk = True
+            obs.append(Ob(r, "%s:unlatch" % fn.split("::")[-1], brk, "%s: codeword 254 in first position of a pair returns to ASCII" % fn.split("::")[-1]))
+            continue
         tail = None
         # (the test may live in a private helper that is called, as a statement, with the reader)
         top = list(sts)
